@@ -61,5 +61,6 @@ package main
 
 //@ property C14: (*NegatedBoolValue).Set mainImplementation
 //@ property C10: mainImplementation
+//@ property C01: mainImplementation
 //@ property C18: mainImplementation
 //@ property C06: mainImplementation
